@@ -26,6 +26,7 @@ SVM = 'src/data/libsvm_parser.h'
 FM = 'src/data/libfm_parser.h'
 CSV = 'src/data/csv_parser.h'
 ROW = 'src/data/row_block.h'
+PARSER = 'src/data/parser.h'
 
 C = P('c', 'c', 32)
 
@@ -98,6 +99,47 @@ def bom_bytes(text):
     return ('-- %s  IgnoreUTF8BOM: byte expected at count 0,1,2; all %s must match or nothing is skipped\n'
             'def bomBytes : List Nat := %s\ndef bomLen : Nat := %s'
             % (TXT, mm.group(1), [int(h, 16) for h, _ in lits], mm.group(1)))
+
+
+def _body_after(text, start_re):
+    """text of the brace-balanced block that opens after the first match of start_re"""
+    m = re.search(start_re, text)
+    if not m:
+        raise cexpr.ParseError('not found: ' + start_re)
+    i = text.index('{', m.end() - 1) if text[m.end() - 1] != '{' else m.end() - 1
+    depth, j = 0, i
+    while j < len(text):
+        if text[j] == '{':
+            depth += 1
+        elif text[j] == '}':
+            depth -= 1
+            if depth == 0:
+                return text[i:j + 1]
+        j += 1
+    raise cexpr.ParseError('unbalanced braces after ' + start_re)
+
+
+def threaded_next_shape(text):
+    """where ThreadedParser::Next gives its cell back: number of `Recycle(` calls in the function, and whether the
+    (only) one comes after the inner scan loop has run to its end and before `iter_.Next(` (so that the block just
+    handed out still lies in the held cell when Next returns)"""
+    cls = text[text.index('class ThreadedParser : public ParserImpl'):]
+    body = _body_after(cls, r'virtual bool Next\(void\) \{')
+    body = re.sub(r'//[^\n]*', '', body)
+    n = body.count('Recycle(')
+    inner = re.search(r'while \(data_ptr_ < data_end_\)', body)
+    if not inner:
+        raise cexpr.ParseError('ThreadedParser::Next: inner scan loop not found')
+    inner_body = _body_after(body[inner.start():], r'while \(data_ptr_ < data_end_\) \{')
+    inner_end = inner.start() + len('while (data_ptr_ < data_end_) ') + len(inner_body) - 1
+    rec = body.find('Recycle(')
+    nxt = body.find('iter_.Next(')
+    after = rec > inner_end and nxt > rec and 'Recycle(' not in inner_body
+    guarded = re.search(r'if \(tmp_ != NULL\) \{\s*iter_\.Recycle\(&tmp_\);\s*\}', body) is not None
+    return ('-- %s ThreadedParser::Next: calls to Recycle, and is the only one placed after the scan loop, before iter_.Next,\n'
+            '-- under `if (tmp_ != NULL)`\n'
+            'def tpRecycleSites : Nat := %d\ndef tpRecycleAfterScan : Bool := %s\ndef tpRecycleGuarded : Bool := %s'
+            % (PARSER, n, 'true' if after else 'false', 'true' if guarded else 'false'))
 
 
 def flag(name, f, present_re, absent_re, doc):
@@ -236,6 +278,8 @@ ITEMS = [
                    'qids for all rows or for none'),
     getblock_check('gbFieldCheck', 'field.size()', [P('field.size()', 'nfield', 64), P('index.size()', 'nindex', 64)],
                    'fields for all entries or for none'),
+    # ---- ThreadedParser::Next (parser.h): where the lent cell is given back -----------------------
+    {'name': 'tpRecycleSites', 'file': PARSER, 'custom': threaded_next_shape},
     # ---- repairs present in the source? -------------------------------------------------------------
     flag('fixPairGuard', STN, PAIR + SKIPND + GUARD % 1, PAIR + SKIPND + r'q = p;',
          'ParsePair returns 1 instead of converting at `end` when nothing follows the colon'),
